@@ -374,6 +374,87 @@ def run(ctx):
             return root(pl["l"])
         same = target(va) is not None and target(va) == target(pa)
     chk.ob("cli/print-verified-object", same, "the printed results are the verified results", eb.loc(), "")
+    # the command line reaches the runner unaltered: each builder call of the RunnerConfig gets its value from the like-named
+    # field of the arguments through copies and conversions only (clone, into, deref, the `?` on the file read) - a filter, a
+    # merge of two lists or a constant between the argument and the builder changes the schedule the property is stated over
+    TRANSPARENT = ("core::clone::Clone::clone", "core::convert::Into::into", "core::convert::From::from",
+                   "core::ops::deref::Deref::deref", "alloc::string::String::as_str", "core::ops::try_trait::Try::branch",
+                   "alloc::borrow::ToOwned::to_owned", "alloc::slice::<impl [T]>::to_vec", "core::convert::AsRef::as_ref",
+                   "alloc::vec::Vec::<T, A>::as_slice", "core::borrow::Borrow::borrow")
+
+    def origin(pl, depth=0):
+        if pl is None or depth > 12:
+            return None
+        proj = [x for x in pl["p"] if x != "*" and not (isinstance(x, dict) and "d" in x)]
+        if pl["l"] == 1:
+            if len(proj) == 1 and isinstance(proj[0], dict) and proj[0].get("adt") == "B::args::RunArgs":
+                return "args.%s" % proj[0]["n"]
+            return None
+        # a field of a local is only followed for the payload of ControlFlow::Continue (the `?` operator)
+        if proj and not (len(proj) == 1 and isinstance(proj[0], dict) and proj[0].get("var") == "Continue"):
+            return None
+        defs = mirutil.local_def_sites(eb, pl["l"])
+        if len(defs) != 1:
+            return None
+        item = defs[0][2]
+        if item["k"] == "assign":
+            rv = item["r"]
+            if rv["k"] == "ref":
+                return origin(rv["p"], depth + 1)
+            if rv["k"] == "use":
+                return origin(mirutil.place_of(rv["o"]), depth + 1)
+            return None
+        if item["k"] == "call":
+            d_ = mirutil.callee_def(item) or ""
+            if d_ in TRANSPARENT and len(item["args"]) == 1:
+                return origin(mirutil.place_of(item["args"][0]), depth + 1)
+            if d_ == "std::fs::read_to_string" and len(item["args"]) == 1:
+                o_ = origin(mirutil.place_of(item["args"][0]), depth + 1)
+                return "file(%s)" % o_ if o_ else None
+        return None
+    want_src = {"with_machine_config": "args.init", "with_max_cycles": "args.cycles", "with_resets": "args.resets",
+                "with_interrupts": "args.interrupts", "with_program": "file(args.program)"}
+    seen_b = {}
+    for bb_, c_, t_ in calls:
+        if c_ and "RunnerConfigBuilder" in c_ and c_.rsplit("::", 1)[-1].startswith("with_"):
+            m_ = c_.rsplit("::", 1)[-1]
+            seen_b.setdefault(m_, []).append(origin(mirutil.place_of(t_["args"][1])) if len(t_["args"]) == 2 else None)
+    for m_, src_ in sorted(want_src.items()):
+        chk.ob("cli/args-reach-runner/%s" % m_, seen_b.get(m_) == [src_],
+               "the runner configuration is built from the command-line arguments as given: %s receives %s through copies and "
+               "conversions only" % (m_, src_), eb.loc(), "provenance of the argument: %s" % (seen_b.get(m_),),
+               "backward provenance over the MIR of the wrapper (single definitions; clone/into/deref/`?` transparent)")
+    chk.ob("cli/args-reach-runner/no-other-setter", set(seen_b) == set(want_src),
+           "no further builder call overrides a configured value", eb.loc(), "builder calls: %s" % sorted(seen_b))
+    # the configuration that is run is the one built: run() receives the result of build().expect()
+    bld = [t_ for bb_, c_, t_ in calls if c_ and c_.endswith("RunnerConfigBuilder::<'a>::build")]
+    runs_ = [t_ for bb_, c_, t_ in calls if c_ == RUN]
+
+    def chain_root(pl, depth=0):
+        """the builder-call chain behind a place: follows refs and the with_* calls' receiver back to Default::default"""
+        if pl is None or depth > 40:
+            return None
+        defs = mirutil.local_def_sites(eb, pl["l"])
+        if len(defs) != 1:
+            return None
+        item = defs[0][2]
+        if item["k"] == "assign" and item["r"]["k"] == "ref":
+            return chain_root(item["r"]["p"], depth + 1)
+        if item["k"] == "assign" and item["r"]["k"] == "use":
+            return chain_root(mirutil.place_of(item["r"]["o"]), depth + 1)
+        if item["k"] == "call":
+            c_ = mirutil.callee_name(item) or ""
+            if "RunnerConfigBuilder" in c_ and (c_.rsplit("::", 1)[-1].startswith("with_") or c_.endswith("::build")):
+                return chain_root(mirutil.place_of(item["args"][0]), depth + 1)
+            if c_.endswith("Result::<T, E>::expect") or c_.endswith("Result::<T, E>::unwrap"):
+                return chain_root(mirutil.place_of(item["args"][0]), depth + 1)
+            if "RunnerConfigBuilder" in c_ and c_.endswith("Default>::default"):
+                return "default"
+        return None
+    ok_chain = len(bld) == 1 and len(runs_) == 1 and chain_root(mirutil.place_of(runs_[0]["args"][0])) == "default"
+    chk.ob("cli/args-reach-runner/one-builder-chain", ok_chain,
+           "run() is called on the configuration produced by the single builder chain that starts at the default builder",
+           eb.loc(), "build calls %d, run calls %d" % (len(bld), len(runs_)))
     # radix parsing
     pb = p.need_body("B::args::parse_u8_auto_radix")
     radix = {}
